@@ -286,13 +286,15 @@ impl MutationQuery {
                         FieldType::Json => {
                             let value = match &field.field_value {
                                 MutationFieldValue::Variable(v) => {
-                                    let value = parameters.params.get(v).unwrap();
-
-                                    serde_json::from_str(value.as_string().unwrap())?
+                                    match parameters.params.get(v).unwrap().as_string() {
+                                        Some(value) => serde_json::from_str(value)?,
+                                        None => serde_json::Value::Null,
+                                    }
                                 }
-                                MutationFieldValue::Value(v) => {
-                                    serde_json::from_str(v.as_string().unwrap())?
-                                }
+                                MutationFieldValue::Value(v) => match v.as_string() {
+                                    Some(value) => serde_json::from_str(value)?,
+                                    None => serde_json::Value::Null,
+                                },
                                 _ => unreachable!(),
                             };
                             obj.insert(String::from(&field.short_name), value);
